@@ -5,7 +5,6 @@ package main
 import (
 	"fmt"
 	"net/netip"
-	"strings"
 
 	"github.com/semihalev/sdns/internal/verif/vlib"
 )
@@ -1006,5 +1005,4 @@ func gen(r *vlib.R, n int, tier string, emit func(string)) {
 		}
 		n -= p.n
 	}
-	_ = strings.TrimSpace
 }
